@@ -44,7 +44,7 @@ BUDGET_S = {'quick': 240, 'thorough': 2400}
 
 FEATS = ('hier', 'abstract', 'extra', 'enum', 'strlike', 'any', 'untyped',
          'date', 'path', 'defaults', 'sweeten', 'inverse', 'seasoned',
-         'abstract_containers', 'buf', 'multi', 'discriminator')
+         'abstract_containers', 'buf', 'multi', 'discriminator', 'scalarized')
 
 
 @st.composite
